@@ -1,5 +1,6 @@
 import ExprModel.Drv.Arith
 import ExprModel.Drv.Code
+import ExprModel.Drv.Source
 import ExprModel.Drv.Spec
 /-
 The model driver: one request per line on stdin (an S-expression `(tag arg…)`), one response per line
@@ -9,7 +10,10 @@ when a proof breaks.  Each `ExprModel/Drv/*.lean` exports a handler table; add y
 open ExprModel
 
 def handlers : List (String × (List Sexp → Sexp)) :=
-  Drv.arithHandlers ++ Drv.codeHandlers ++ Drv.specHandlers
+  Drv.arithHandlers ++
+  Drv.codeHandlers ++
+  Drv.specHandlers ++
+  Drv.sourceHandlers
 
 def dispatch (req : Sexp) : Sexp :=
   match req with
